@@ -61,7 +61,7 @@ fn main() {
             ps.fail_last += ps2.fail_last;
             pv.extend(pv2);
         }
-        if ex.viols.is_empty() && pv.is_empty() {
+        if ex.viols.is_empty() && pv.iter().all(|v| v.property != "C12") {
             // failed call == no-op for every continuation of two operations (state the BFS key cannot see)
             let cap = model.cfg.capacity() as u32;
             let near_all: Vec<&qf::St> = ex.states.iter().filter(|s| s.off == 0 && !s.tainted && s.set.count_ones() + 1 >= cap).collect();
@@ -129,7 +129,7 @@ fn main() {
         }
         // failed call == no-op for every continuation of two operations (finds state the BFS key cannot see)
         let mut fc = (0u64, 0u64);
-        if cex.viols.is_empty() && pv.is_empty() && cfg.budget.is_some() {
+        if cex.viols.is_empty() && pv.iter().all(|v| v.property != "C12") && cfg.budget.is_some() {
             let cap = cfg.bucketsize * cfg.n_buckets;
             let full = std::env::args().any(|a| a == "thorough");
             let lim = if full { 250 } else { 80 };
